@@ -64,22 +64,20 @@ struct Spec {
 /// A spec whose expectation is derived from the bytes with the reference parser: entries are
 /// the "\n\n"-terminated pieces, the first piece the reference parser rejects is the bad entry.
 fn derived_spec(name: &str, bytes: Vec<u8>, canonical: bool) -> Spec {
-    let text = String::from_utf8_lossy(&bytes).into_owned();
     let mut expect = vec![];
     let mut bad_end = None;
-    let mut pos = 0;
-    for chunk in text.split_inclusive("\n\n") {
-        pos += chunk.len();
-        if !chunk.ends_with("\n\n") {
-            break;
-        }
-        match ms::parse(&chunk[..chunk.len() - 1]) {
-            Ok(e) => expect.push(e),
-            Err(_) => {
-                bad_end = Some(pos);
+    let mut start = 0;
+    while let Some(k) = bytes[start..].windows(2).position(|w| w == b"\n\n") {
+        let end = start + k + 2;
+        // an entry that is not UTF-8 is malformed
+        match std::str::from_utf8(&bytes[start..end - 1]).ok().and_then(|t| ms::parse(t).ok()) {
+            Some(e) => expect.push(e),
+            None => {
+                bad_end = Some(end);
                 break;
             }
         }
+        start = end;
     }
     Spec { name: name.to_string(), bytes, expect, bad_end, canonical }
 }
@@ -99,17 +97,32 @@ fn bad_spec(k: usize, fault: usize) -> Spec {
                 0 => text.replacen("COMMENT=", "COMMENT", 1),
                 1 => format!("NOT_A_VARIABLE=1\n{}", text),
                 2 => text.replacen("SIZE_PKG=", "SIZE_PKG=x", 1),
-                _ => text.lines().filter(|l| !l.starts_with("PKGNAME=")).map(|l| format!("{}\n", l)).collect(),
+                3 => text.lines().filter(|l| !l.starts_with("PKGNAME=")).map(|l| format!("{}\n", l)).collect(),
+                // 4 and 5: bytes that are not UTF-8, put in below
+                _ => text.replacen("COMMENT=", "COMMENT=\u{1}", 1),
             };
         }
-        bytes.extend_from_slice(text.as_bytes());
+        let mut tb = text.into_bytes();
+        if i == k && fault >= 4 {
+            let at = tb.iter().position(|b| *b == 1).unwrap();
+            if fault == 4 {
+                // a byte that can never occur in UTF-8, at the start of a value
+                tb[at] = 0xff;
+            } else {
+                // a lead byte without its continuation, at the end of a value's line
+                tb.remove(at);
+                let eol = at + tb[at..].iter().position(|b| *b == b'\n').unwrap();
+                tb.insert(eol, 0xc3);
+            }
+        }
+        bytes.extend_from_slice(&tb);
         bytes.push(b'\n');
         if i == k {
             bad_end = bytes.len();
         }
     }
     Spec {
-        name: format!("M(entry {} of 4, fault {})", k + 1, ["line-without-=", "unknown-variable", "bad-integer", "missing-PKGNAME"][fault]),
+        name: format!("M(entry {} of 4, fault {})", k + 1, ["line-without-=", "unknown-variable", "bad-integer", "missing-PKGNAME", "byte-FF-in-a-value", "lead-byte-C3-before-the-newline"][fault]),
         bytes,
         expect: es[..k].to_vec(),
         bad_end: Some(bad_end),
@@ -210,12 +223,25 @@ fn run_partition(spec: &Spec, cuts: &[usize]) -> Option<Violation> {
         if q <= p {
             continue;
         }
+        // an empty write is a legitimate chunk: it consumes nothing and changes nothing
+        let before = s.entries().len();
+        match guard(|| s.write(&[])) {
+            Ok(Ok(0)) if s.entries().len() == before => {}
+            other => return Some(Violation::new("partition", case(spec, cuts), json!("Ok(0), nothing collected"), json!(format!("{:?} ({} -> {} entries)", other.map(|r| r.map_err(|e| e.kind())), before, s.entries().len())), &format!("empty write before byte {}", p))),
+        }
         match step(spec, &mut s, p, q) {
             Step::Ok(_) => {}
             Step::Failed => return None,
             Step::Violation(note, exp, obs) => return Some(Violation::new("partition", case(spec, cuts), exp, obs, &format!("{} (write of bytes {}..{})", note, p, q))),
         }
         p = q;
+    }
+    if spec.bad_end.is_none() {
+        let before = s.entries().len();
+        match guard(|| s.write(&[])) {
+            Ok(Ok(0)) if s.entries().len() == before => {}
+            other => return Some(Violation::new("partition", case(spec, cuts), json!("Ok(0), nothing collected"), json!(format!("{:?}", other.map(|r| r.map_err(|e| e.kind())))), "empty write after the last byte")),
+        }
     }
     final_check(spec, &s).map(|(note, exp, obs)| Violation::new("partition", case(spec, cuts), exp, obs, &note))
 }
@@ -420,8 +446,8 @@ fn main() {
     }
     let mut bad = vec![];
     for k in 0..4 {
-        for f in 0..4 {
-            if run.thorough() || (k + f) % 2 == 0 || f == 3 {
+        for f in 0..6 {
+            if run.thorough() || (k + f) % 2 == 0 || f == 3 || f == 4 {
                 bad.push(bad_spec(k, f));
             }
         }
